@@ -36,7 +36,8 @@ def atomic_sort(eng, path):
 
 
 def _is_local(p):
-    return isinstance(p, Ptr) and p.root[0] == "local"
+    # atomics that live in a frame local or in a per-scenario static cell (sequential scenarios): plain loads and stores
+    return isinstance(p, Ptr) and p.root[0] in ("local", "static")
 
 
 def m_atomic_new(eng, ctx, f, path, args, dty):
